@@ -227,6 +227,7 @@ def impl_multi(case):
             p._messages.append(mkmsg(x))
         if c:
             p.close()
+        p.was_open = not c
         subs.append(p)
     k = l[0]
     mp = ports.MultiPort(subs)
@@ -256,6 +257,12 @@ def impl_multi(case):
                     fail = ('multiport-hangs', 'MultiPort.receive(block=%r) never returned although %s' % (bool(block), 'a message was deliverable' if deliverable else 'it must not wait'))
             except Exception as e:  # noqa: BLE001
                 out += [3, core.exn_code(e)]
+            # a sub-port that closes itself inside a poll has taken its last messages in during that poll; the sweep hands all of them on,
+            # for the MultiPort will not look at a closed port again
+            stranded = [(i, [msgid(x) for x in p._messages]) for i, p in enumerate(subs) if p.was_open and p.closed and p._messages]
+            if stranded and fail is None:
+                fail = ('multiport-strands', 'after MultiPort.receive returned, sub-port(s) that closed themselves during the poll still hold messages the MultiPort '
+                        'will never hand out: %r' % (stranded,))
         out += [st['sleeps']]
     finally:
         ports.sleep, ports.random.shuffle = saved, saved_shuffle
